@@ -596,6 +596,8 @@ impl ObjectReceiver {
         }
 
         while let Some(item) = self.cache.pop() {
+            #[cfg(feature = "verif")]
+            crate::verif::step("ObjectReceiver::push_from_cache");
             let pkt = item.to_pkt();
             if self.push_to_block(&pkt, now).is_err() {
                 self.error("Fail to push block", now, false);
@@ -734,6 +736,23 @@ impl ObjectReceiver {
             std::cmp::min(nb_blocks as usize, MAX_PREALLOCATED_BLOCKS),
             BlockDecoder::new,
         );
+    }
+}
+
+#[cfg(feature = "verif")]
+impl ObjectReceiver {
+    /// Memory related counters (verification hook)
+    pub fn verif_stats(&self) -> crate::verif::ObjectStats {
+        crate::verif::ObjectStats {
+            toi: self.toi,
+            cached_packets: self.cache.len(),
+            cached_bytes: self.cache.iter().map(|p| p.data.len()).sum(),
+            cache_size_counter: self.cache_size,
+            max_size_allocated: self.max_size_allocated,
+            nb_allocated_blocks: self.nb_allocated_blocks,
+            total_allocated_blocks_size: self.total_allocated_blocks_size,
+            nb_blocks: self.blocks.len(),
+        }
     }
 }
 
